@@ -1,6 +1,7 @@
 """C12 - printing an unedited document yields text that parses back equal."""
 import csv
 import io
+import os
 import json
 import plistlib
 import xml.etree.ElementTree as ET
@@ -37,7 +38,7 @@ MANIFEST_TEXT = ("Per-format print/parse round trip over generated documents cov
                  "numbers for JSON/JSON5/CSV; alphanumeric content with arbitrary structure for YAML/plist/XML).")
 MANIFEST_NOTE = "Trusts vf/canon.py's plain() for comparing two graphtage trees; the input files are written by the standard libraries."
 DESIGN_REF = 'DESIGN.md section 3, C12'
-SHRINK = {'docs': ['doc'], 'enums': {'warm': False, 'reuse': None}}
+SHRINK = {'docs': ['doc'], 'enums': {'warm': False, 'reuse': None, 'ds': 'auto', 'real': False}}
 
 
 def _has_empty_container(d):
@@ -86,8 +87,10 @@ def xml_docs():
 
 
 def _warm(strat):
-    return st.tuples(strat, st.booleans(), st.sampled_from([None, 'json', 'yaml', 'plist', 'plist', 'xml', 'csv'])).map(
-        lambda t: dict(t[0], warm=t[1], **({'reuse': t[2]} if t[2] and t[2] != t[0]['fmt'] else {})))
+    return st.tuples(strat, st.booleans(), st.sampled_from([None, 'json', 'yaml', 'plist', 'plist', 'xml', 'csv']),
+                     st.sampled_from(['auto', 'auto', 'none', 'match']), st.integers(0, 3)).map(
+        lambda t: dict(t[0], warm=t[1], ds=t[3], **({'reuse': t[2]} if t[2] and t[2] != t[0]['fmt'] and t[4] else {}),
+                       **({'real': True} if t[4] == 0 else {})))
 
 
 STRATS = {
@@ -169,6 +172,34 @@ def tiny_tree(fmt):
         finally:
             cli.cleanup_files(p)
     return _tiny_trees[fmt]
+
+
+def printed_real(fmt, tree):
+    """the same print through a Printer bound to the process's standard output when that is a real file (status output
+    on): the Printer then buffers lines and emits them with tqdm.write - what a terminal or a pipe gets"""
+    import sys
+    from ..core import scratch_dir
+    cli._counter[0] += 1
+    po = os.path.join(scratch_dir(), f"c12out{cli._counter[0]}.txt")
+    so, se = sys.stdout, sys.stderr
+    fo, fe = open(po, 'w', encoding='utf-8', newline=''), open(po + '.err', 'w', encoding='utf-8')
+    sys.stdout, sys.stderr = fo, fe
+    try:
+        pr = Printer(ansi_color=False, quiet=False)
+        FT[fmt].get_default_formatter().print(pr, tree)
+        pr.flush(final=True)
+    finally:
+        sys.stdout, sys.stderr = so, se
+        for f in (fo, fe):
+            try:
+                f.close()
+            except Exception:
+                pass
+    try:
+        with open(po, encoding='utf-8', newline='') as f:
+            return f.read()
+    finally:
+        cli.cleanup_files(po, po + '.err')
 
 
 def printed(fmt, tree, reuse=None):
@@ -255,13 +286,14 @@ def check(case):
     p1 = cli.write_file(data, cli.EXT[fmt], name='in')
     p2 = None
     try:
+        opts = common.build_options(case.get('ds', 'auto'), 'on')
         try:
-            t1 = FT[fmt].build_tree(p1)
+            t1 = FT[fmt].build_tree(p1, opts)
         except Exception:
             out.skipped = 'input-rejected-by-loader'      # not this property's business (C20 covers rejection)
             return out
         with guard(f'print {fmt}'):
-            text = printed(fmt, t1, case.get('reuse'))
+            text = printed_real(fmt, t1) if case.get('real') else printed(fmt, t1, case.get('reuse'))
         try:
             raw = text.encode('utf-8')
         except UnicodeEncodeError as e:
@@ -269,12 +301,23 @@ def check(case):
             return out
         p2 = cli.write_file(raw, cli.EXT[fmt], name='out')
         try:
-            t2 = FT[fmt].build_tree(p2)
+            t2 = FT[fmt].build_tree(p2, opts)
         except Exception as e:
             out.fail(f'printed-text-rejected:{fmt}', f"{type(e).__name__}: {str(e)[:150]}; doc={case['doc']!r}; printed={text[:200]!r}")
             return out
         with guard('plain'):
             v1, v2 = plain(t1, True), plain(t2, True)
+        if case.get('real') and fmt == 'csv':
+            # the line-buffered path ends its output with line terminators of its own (flush(final=True) is documented to add a
+            # final newline), which a CSV reader takes for empty rows: rows without cells at the very end are not compared
+            def strip_tail(v):
+                rows = list(v[1]) if isinstance(v, tuple) and len(v) == 2 and v[0] == 'list' else None
+                if rows is None:
+                    return v
+                while rows and rows[-1] == ('list', ()):
+                    rows.pop()
+                return ('list', tuple(rows))
+            v1, v2 = strip_tail(v1), strip_tail(v2)
         if v1 != v2:
             out.fail(f'reloaded-document-differs:{fmt}', f"loaded {v1!r}, after print+load {v2!r}; printed={text[:200]!r}")
     finally:
@@ -285,6 +328,9 @@ def check(case):
     else:
         out.nontrivial = depth(d) >= 2
     out.label('fmt:' + fmt)
+    out.label('ds:' + case.get('ds', 'auto'))
+    if case.get('real'):
+        out.label('printer-on-real-stdout')
     if case.get('reuse'):
         out.label('printer-reused-after:' + case['reuse'])
     out.info = {'printed_len': len(text)}
